@@ -25,9 +25,11 @@ type reportCtor struct {
 	osVar  *types.Var // variadic options
 	level  *facts.Level
 	lit    *ast.CompositeLit
+	litPos token.Pos
 	fields map[*types.Var]ast.Expr
 	defs   map[*types.Var]ast.Expr // local := definitions (single-valued or first of a tuple)
 	defIdx map[*types.Var]int      // index within the tuple
+	single map[*types.Var]bool     // defined by a single-value :=
 	repT   *types.Named
 }
 
@@ -44,7 +46,7 @@ func (e *Env) reportCtors(rule string) []*reportCtor {
 			e.C.Fail(rule, "v3/report.New"+l.Spec.Name, "", "report constructor not found")
 			continue
 		}
-		rc := &reportCtor{fn: fn, decl: e.P.Decl(fn), info: pk.TypesInfo, level: l, defs: map[*types.Var]ast.Expr{}, defIdx: map[*types.Var]int{}}
+		rc := &reportCtor{fn: fn, decl: e.P.Decl(fn), info: pk.TypesInfo, level: l, defs: map[*types.Var]ast.Expr{}, defIdx: map[*types.Var]int{}, single: map[*types.Var]bool{}}
 		sig := fn.Type().(*types.Signature)
 		if sig.Params().Len() != 2 || !sig.Variadic() || !types.Identical(sig.Params().At(0).Type(), l.Ptr()) {
 			e.C.Fail(rule, fname(fn), e.P.Pos(fn.Pos()), "signature is not (metrics object of its level, options...)")
@@ -74,6 +76,7 @@ func (e *Env) reportCtors(rule string) []*reportCtor {
 					if v, ok := rc.info.Defs[id].(*types.Var); ok {
 						rc.defs[v] = s.Rhs[0]
 						rc.defIdx[v] = i
+						rc.single[v] = len(s.Lhs) == 1
 					}
 				}
 			case *ast.ReturnStmt:
@@ -87,19 +90,57 @@ func (e *Env) reportCtors(rule string) []*reportCtor {
 					}
 				}
 			default:
-				okShape = false
+				// other statements (caching, logging, ...) are not part of the wiring; the fields they
+				// feed will simply not match the expected expressions
 			}
 		}
-		if !okShape || rc.lit == nil {
-			e.C.Undecided(rule, fname(fn), e.P.Pos(fn.Pos()), "constructor body is not a sequence of := definitions followed by the return of a keyed composite literal")
-			continue
+		_ = okShape
+		if rc.lit != nil {
+			fields, ok := litFields(rc.lit, rc.info)
+			if !ok {
+				e.C.Undecided(rule, fname(fn), e.P.Pos(rc.lit.Pos()), "composite literal is not fully keyed")
+				continue
+			}
+			rc.fields = fields
+			rc.litPos = rc.lit.Pos()
+		} else {
+			// alternative form: a local report value filled by  rep.F = expr  assignments and returned
+			var repVar *types.Var
+			for _, st := range rc.decl.Body.List {
+				if r, ok := st.(*ast.ReturnStmt); ok && len(r.Results) == 1 {
+					x := ast.Unparen(r.Results[0])
+					if u, ok := x.(*ast.UnaryExpr); ok && u.Op == token.AND {
+						x = ast.Unparen(u.X)
+					}
+					if id, ok := x.(*ast.Ident); ok {
+						repVar, _ = rc.info.Uses[id].(*types.Var)
+						rc.litPos = r.Pos()
+					}
+				}
+			}
+			if repVar == nil {
+				e.C.Undecided(rule, fname(fn), e.P.Pos(fn.Pos()), "constructor neither returns a keyed composite literal nor a local report value")
+				continue
+			}
+			rc.fields = map[*types.Var]ast.Expr{}
+			for _, st := range rc.decl.Body.List {
+				as, ok := st.(*ast.AssignStmt)
+				if !ok || as.Tok != token.ASSIGN || len(as.Lhs) != 1 || len(as.Rhs) != 1 {
+					continue
+				}
+				sel, ok := as.Lhs[0].(*ast.SelectorExpr)
+				if !ok {
+					continue
+				}
+				id, ok := ast.Unparen(sel.X).(*ast.Ident)
+				if !ok || rc.info.Uses[id] != types.Object(repVar) {
+					continue
+				}
+				if s := rc.info.Selections[sel]; s != nil && s.Kind() == types.FieldVal && len(s.Index()) == 1 {
+					rc.fields[s.Obj().(*types.Var)] = as.Rhs[0]
+				}
+			}
 		}
-		fields, ok := litFields(rc.lit, rc.info)
-		if !ok {
-			e.C.Undecided(rule, fname(fn), e.P.Pos(rc.lit.Pos()), "composite literal is not fully keyed")
-			continue
-		}
-		rc.fields = fields
 		if pt, ok := sig.Results().At(0).Type().(*types.Pointer); ok {
 			rc.repT, _ = pt.Elem().(*types.Named)
 		}
@@ -111,14 +152,32 @@ func (e *Env) reportCtors(rule string) []*reportCtor {
 func (rc *reportCtor) field(name string) (*types.Var, ast.Expr) {
 	for fv, x := range rc.fields {
 		if fv.Name() == name {
-			return fv, x
+			return fv, rc.resolve(x)
 		}
 	}
 	return nil, nil
 }
 
+// resolve follows local single-value := definitions (ver := base.Ver.String(); Version: ver).
+func (rc *reportCtor) resolve(x ast.Expr) ast.Expr {
+	for i := 0; i < 8; i++ {
+		id, ok := ast.Unparen(x).(*ast.Ident)
+		if !ok {
+			return x
+		}
+		v, _ := rc.info.Uses[id].(*types.Var)
+		def, ok := rc.defs[v]
+		if !ok || rc.single[v] == false {
+			return x
+		}
+		x = def
+	}
+	return x
+}
+
 // isOptsLang: the expression is opts.lang where opts := newOptions(os...).
 func (e *Env) isOptsLang(rc *reportCtor, x ast.Expr) bool {
+	x = rc.resolve(x)
 	sel, ok := ast.Unparen(x).(*ast.SelectorExpr)
 	if !ok || sel.Sel.Name != "lang" {
 		return false
@@ -151,6 +210,7 @@ func (rc *reportCtor) forwardsOptions(call *ast.CallExpr) bool {
 
 // paramField: x is  param.F  selecting field F declared at the parameter's own level.
 func (rc *reportCtor) paramField(x ast.Expr) *types.Var {
+	x = rc.resolve(x)
 	sel, ok := ast.Unparen(x).(*ast.SelectorExpr)
 	if !ok {
 		return nil
@@ -169,6 +229,7 @@ func (rc *reportCtor) paramField(x ast.Expr) *types.Var {
 
 // ownMethodCall: x is  param.M()  with M declared on the parameter's own type.
 func (rc *reportCtor) ownMethodCall(x ast.Expr, name string) bool {
+	x = rc.resolve(x)
 	call, ok := ast.Unparen(x).(*ast.CallExpr)
 	if !ok || len(call.Args) != 0 {
 		return false
@@ -246,7 +307,7 @@ func (e *Env) reportWiring(rc, lower *reportCtor, nf *nameFuncs) {
 		x, pos := use(P + "Name")
 		cons := fmt.Sprintf("%s field %sName", who, P)
 		if x == nil {
-			c.Fail("metric-title", cons, e.P.Pos(rc.lit.Pos()), "field missing from the report literal")
+			c.Fail("metric-title", cons, e.P.Pos(rc.litPos), "field missing from the report literal")
 		} else {
 			fn, call := namesCallee(rc.info, x)
 			ok := fn != nil && fn.Name() == tname && len(call.Args) == 1 && e.isOptsLang(rc, call.Args[0])
@@ -260,7 +321,7 @@ func (e *Env) reportWiring(rc, lower *reportCtor, nf *nameFuncs) {
 		x, pos = use(P + "Value")
 		cons = fmt.Sprintf("%s field %sValue", who, P)
 		if x == nil {
-			c.Fail("metric-value", cons, e.P.Pos(rc.lit.Pos()), "field missing from the report literal")
+			c.Fail("metric-value", cons, e.P.Pos(rc.litPos), "field missing from the report literal")
 			continue
 		}
 		fn, call := namesCallee(rc.info, x)
@@ -284,7 +345,7 @@ func (e *Env) reportWiring(rc, lower *reportCtor, nf *nameFuncs) {
 		x, pos := use(pr[0])
 		cons := fmt.Sprintf("%s field %s", who, pr[0])
 		if x == nil {
-			c.Fail("level-fields", cons, e.P.Pos(rc.lit.Pos()), "field missing from the report literal")
+			c.Fail("level-fields", cons, e.P.Pos(rc.litPos), "field missing from the report literal")
 			continue
 		}
 		fn, call := namesCallee(rc.info, x)
@@ -293,7 +354,7 @@ func (e *Env) reportWiring(rc, lower *reportCtor, nf *nameFuncs) {
 	}
 	// severity value
 	if x, pos := use("SeverityValue"); x == nil {
-		c.Fail("level-fields", who+" field SeverityValue", e.P.Pos(rc.lit.Pos()), "field missing")
+		c.Fail("level-fields", who+" field SeverityValue", e.P.Pos(rc.litPos), "field missing")
 	} else {
 		fn, call := namesCallee(rc.info, x)
 		ok := fn != nil && fn.Name() == "SeverityValueOf" && len(call.Args) == 2 && rc.ownMethodCall(call.Args[0], "Severity") && e.isOptsLang(rc, call.Args[1])
@@ -301,7 +362,7 @@ func (e *Env) reportWiring(rc, lower *reportCtor, nf *nameFuncs) {
 	}
 	// vector
 	if x, pos := use("Vector"); x == nil {
-		c.Fail("level-fields", who+" field Vector", e.P.Pos(rc.lit.Pos()), "field missing")
+		c.Fail("level-fields", who+" field Vector", e.P.Pos(rc.litPos), "field missing")
 	} else {
 		ok := false
 		if id, isId := ast.Unparen(x).(*ast.Ident); isId {
@@ -313,7 +374,7 @@ func (e *Env) reportWiring(rc, lower *reportCtor, nf *nameFuncs) {
 	}
 	// score
 	if x, pos := use(lvl + "Score"); x == nil {
-		c.Fail("level-fields", who+" field "+lvl+"Score", e.P.Pos(rc.lit.Pos()), "field missing")
+		c.Fail("level-fields", who+" field "+lvl+"Score", e.P.Pos(rc.litPos), "field missing")
 	} else {
 		call, _ := ast.Unparen(x).(*ast.CallExpr)
 		ok := call != nil && len(call.Args) == 4 && rc.ownMethodCall(call.Args[0], "Score")
@@ -322,7 +383,7 @@ func (e *Env) reportWiring(rc, lower *reportCtor, nf *nameFuncs) {
 	// version (base only)
 	if rc.level.VerField != nil {
 		if x, pos := use("Version"); x == nil {
-			c.Fail("level-fields", who+" field Version", e.P.Pos(rc.lit.Pos()), "field missing")
+			c.Fail("level-fields", who+" field Version", e.P.Pos(rc.litPos), "field missing")
 		} else {
 			ok := false
 			if call, isCall := ast.Unparen(x).(*ast.CallExpr); isCall && len(call.Args) == 0 {
@@ -365,7 +426,7 @@ func (e *Env) reportWiring(rc, lower *reportCtor, nf *nameFuncs) {
 					ok = true
 				}
 			}
-			c.Check(ok, "embedded-report", cons, e.P.Pos(rc.lit.Pos()), "lower constructor on the accessor of the embedded object, options forwarded", why)
+			c.Check(ok, "embedded-report", cons, e.P.Pos(rc.litPos), "lower constructor on the accessor of the embedded object, options forwarded", why)
 		}
 		// shadowing depth
 		for _, n := range []string{"Vector", "SeverityName", "SeverityValue"} {
@@ -382,7 +443,7 @@ func (e *Env) reportWiring(rc, lower *reportCtor, nf *nameFuncs) {
 	st := rc.repT.Underlying().(*types.Struct)
 	for i := 0; i < st.NumFields(); i++ {
 		if _, ok := rc.fields[st.Field(i)]; !ok {
-			c.Fail("level-fields", who+" field "+st.Field(i).Name(), e.P.Pos(rc.lit.Pos()), "report field is never filled")
+			c.Fail("level-fields", who+" field "+st.Field(i).Name(), e.P.Pos(rc.litPos), "report field is never filled")
 		}
 	}
 }
